@@ -33,7 +33,9 @@ UNITS = ['femtogram', 'millimolar', 'micrometer', 'second', 'nanometer']
 
 def shape(r, depth, maxd):
     d = {}
-    for k in r.sample(['a', 'b', 'c', 'd', 'e'], r.randint(1, 3)):
+    # below the top level a variable may have any name, including 'time' (the name of the time vector's key)
+    names = ['a', 'b', 'c', 'd', 'e'] + (['time', 'value'] if depth > 1 else [])
+    for k in r.sample(names, r.randint(1, 3)):
         if depth < maxd and r.random() < 0.4:
             d[k] = shape(r, depth + 1, maxd)
         else:
